@@ -234,8 +234,9 @@ def check(case, ctx):
     def nest(steps):
         inner = steps[i:j]
         a, b = i2 - i, j2 - i
-        inner = inner[:a] + [Flow(*inner[a:b])] + inner[b:]
-        return steps[:i] + [Flow(*inner)] + steps[j:]
+        # (an empty Flow() - e.g. Flow(*optional_steps) without optional steps - is a link that does nothing)
+        inner = inner[:a] + [Flow(*inner[a:b])] + [Flow()] + inner[b:]
+        return steps[:i] + [Flow(*inner)] + steps[j:] + [Flow()]
     try:
         nb, nr, _ = evaluate(specs, desc0, tables0, ctx, wrap=nest)
     except Exception as e:
